@@ -54,6 +54,7 @@ func main() {
 	if *explain != "" {
 		os.Exit(doExplain(*explain, *repo, *out, *knownPath))
 	}
+	FastLoad = *tier == "quick" && os.Getenv("COERLINT_FULLLOAD") == ""
 	p, err := Load(*repo)
 	if err != nil {
 		fmt.Println("ERROR: cannot analyse the repository:", err)
